@@ -12,21 +12,32 @@ A case of this check is a *scenario* (pure JSON):
   kill      None, or (case k, step s, delay_ms): when the worker that handles case k reaches step s it
             waits delay_ms (the other workers run on: the sampled schedule dimension) and SIGKILLs the
             WHOLE process group of the study (parent, all pool workers, resource tracker).
-            Steps: pre_log (before the 'Working on Case' line is appended to tpy_mp.log), post_log (after it),
-            post_mkdir (after os.makedirs of the case directory), post_func (study function returned, before
-            np.savez), mid_savez (np.savez done, file truncated to half its size), post_savez, post_marker
-            (mp_success.log written and closed), post_success_line (success line appended to tpy_mp.log).
+            Steps: pre_log (before the worker opens tpy_mp.log to append the line that starts a case), post_log
+            (after that append is closed) - for these two the case number is not yet visible in any file
+            operation, so `case` = k means "the k-th case START of the study" (global ticket) -, post_mkdir
+            (after os.makedirs of the directory ..._run_k), post_func (the harness' study function is about to
+            return for case k), mid_savez (np.savez done, file truncated to half its size), post_savez,
+            post_marker (mp_success.log written and closed), post_success_line (the append to tpy_mp.log that
+            follows the study function of case k is closed).
+            All kill points are recognised by FILE OPERATIONS (open/close of tpy_mp.log and mp_success.log,
+            os.makedirs, np.savez, the harness' own study function), never by the text of a message: rewording
+            the log/print messages of the module leaves every kill point in place (see vlib/mp_driver.py).
             Header steps (kill in the study PARENT while it writes the header of tpy_mp.log, before the pool
             exists and before any case has started; `case` then only selects the cut of header_mid_inputs):
-            header_empty (log file created by open(.., 'w'), still empty), header_mid_inputs (log flushed after
-            1 .. dims-1 input lines, i.e. cut between input lines; with one axis: after its only line),
-            header_no_close (all input lines flushed, closing '------------' line missing).
+            header_empty (log file created by open(.., 'w'), still empty), header_mid_inputs (log cut after
+            1 .. dims-1 input lines, i.e. between input lines; with one axis: after its only line),
+            header_no_close (only the last line of the header, the terminator of the input block, missing).
+            The cut is made by line position counted from the end of what the parent wrote (last line =
+            terminator, the dims lines before it = inputs), cross-checked with the harness' axis names; a
+            failed cross-check is a HarnessError (the header layout changed: the model needs review).
+Vacuity guard: a planned kill that never fires is labelled kill:not_reached; if more than 10 % of the planned
+kills of a run are not reached, or a planned step never fires at all, the run ends with HARNESS-ERROR (exit 2).
   work_ms   unit of the per-case sleep inside the study function (spreads the workers over the steps)
 
 Every scenario runs three times `python -m vlib.mp_driver` (own session/process group, stdin=/dev/null) in
 scratch directories under one tempfile.mkdtemp() that is always removed:
   reference  uninterrupted, fresh directory, no faults (cached per (axes, pool) inside a shard)
-  run 1      faults injected: proxies for the names print/open/os/np inside the module under test,
+  run 1      faults injected: proxies for the names open/os/np inside the module under test,
              installed before the pool forks (fork start method + dill pickles func_to_use's globals by
              reference to the module dict - both facts are asserted by selftest())
   run 2      same directory, force_restart=False, no faults.
@@ -74,10 +85,17 @@ Sensitivity (tools/mut.py, quick tier, all CAUGHT; signatures seen in brackets):
   `previous_run_data.append((run_num, run_indicies, ...` -> `run_indicies[::-1]`           [labels]
   np.load of the first skipped case's file for every skipped case (stale alias)            [equal, labels]
 
+  seeded/C18-1 (restart reads must_include with a digits regex: 1e-07 style values split)  [completes/exception, counters]
+  seeded/C18-2 (restart reuses any existing result file of an unmarked case, also truncated ones) [completes/returned_none]
+Negative controls: rewording the messages ('MP Study:: Working on Case' -> 'MP Study: case', 'completed successfully'
+  -> 'done') plus an extra preamble line in the log header => rc 0 with all 11 kill steps firing (injection is keyed on
+  file operations); `os.makedirs(this_run_dir)` -> `os.mkdir(...)` (post_mkdir hook no longer reached) => HARNESS-ERROR
+  exit 2 from the vacuity guard, not a silent pass.
+
 Note: on the tree before 94c69eb a header_no_close log happened to restart correctly (the parser simply ran to the
 end of the file), so that variant does not discriminate the revert; header_empty and header_mid_inputs do.
 
-Measured: one scenario ~3 CPU-s (three runs of ~1 s: 0.8 s import + pool start); quick = 24 fixed + 142 generated
+Measured: one scenario ~3 CPU-s (three runs of ~1 s: 0.8 s import + pool start); quick = 25 fixed + 142 generated
 scenarios on 16 shards.
 """
 import json
@@ -297,6 +315,10 @@ _G3 = [{'name': 'a', 'start': 1, 'end': 2, 'scale': 'linear', 'n': 2, 'mi_as': '
        {'name': 'c', 'start': -1.0, 'end': 1.0, 'scale': 'linear', 'n': 2, 'mi_as': 'list', 'mi': [0.25]}]   # 3 x 2 x 3
 
 
+_GE = [{'name': 'tiny', 'start': 1e-07, 'end': 3e-07, 'scale': 'linear', 'n': 2, 'mi_as': 'tuple', 'mi': [2.5e-07, -1.5e-05]},
+       {'name': 'huge', 'start': 1.5e+16, 'end': 3e+16, 'scale': 'linear', 'n': 2, 'mi_as': 'list', 'mi': [2.25e+16]}]   # 4 x 3
+
+
 def fixed_cases(tier):
     out = []
     for s in CASE_STEPS:
@@ -305,6 +327,7 @@ def fixed_cases(tier):
     for s in HEADER_STEPS:
         out.append({'axes': _GA, 'pool': 4, 'raise': [], 'kill': {'case': 0, 'step': s, 'delay_ms': 0}, 'work_ms': 0})
         out.append({'axes': _G3, 'pool': 7, 'raise': [2], 'kill': {'case': 1, 'step': s, 'delay_ms': 0}, 'work_ms': 1})
+    out.append({'axes': _GE, 'pool': 4, 'raise': [], 'kill': {'case': 1, 'step': 'post_marker', 'delay_ms': 5}, 'work_ms': 1})
     out.append({'axes': _GA, 'pool': 5, 'raise': [0, 7, 11], 'kill': None, 'work_ms': 0})
     out.append({'axes': _GB, 'pool': 16, 'raise': [2], 'kill': None, 'work_ms': 1})
     if tier == 'thorough':
@@ -323,10 +346,19 @@ def fixed_cases(tier):
     return out
 
 
+def _cpus():
+    try:
+        import psutil
+        return int(psutil.cpu_count() or 0)
+    except ImportError:
+        return int(os.cpu_count() or 0)
+
+
 def required_labels(tier):
-    return (['step:' + s for s in STEPS] + ['killed:' + s for s in STEPS]
+    pools = ['pool:4-7'] + (['pool:8-11'] if _cpus() >= 8 else []) + (['pool:12-16'] if _cpus() >= 16 else [])
+    return (['step:' + s for s in STEPS] + ['killed:' + s for s in STEPS] + pools
             + ['kill:none', 'mi:tuple', 'mi:list', 'mi:none', 'scale:log', 'scale:linear', 'dims:1', 'dims:2', 'dims:3',
-               'raise:some', 'raise:none', 'pool:4-7', 'pool:8-11', 'pool:12-16', 'restart:reloaded_some',
+               'raise:some', 'raise:none', 'restart:reloaded_some',
                'restart:reran_some', 'at_restart:marker_and_result', 'at_restart:result_without_marker',
                'at_restart:truncated_result', 'at_restart:dir_only'])
 
@@ -334,6 +366,13 @@ def required_labels(tier):
 def extra_coverage(tier, merged):
     lab = merged['labels']
     fired = {s: lab.get('killed:' + s, 0) for s in STEPS}        # 8 case steps + 3 header steps
+    planned = {s: lab.get('step:' + s, 0) for s in STEPS}
+    not_reached = lab.get('kill:not_reached', 0)
+    never = [s for s in STEPS if planned[s] > 0 and fired[s] == 0]
+    if not_reached * 10 > sum(planned.values()) or never:
+        # vacuity guard: the injection no longer finds its kill points (e.g. after a refactor of the module)
+        raise HarnessError('fault injection is not reaching its kill points: %d of %d planned kills not reached; steps that '
+                           'never fired: %s' % (not_reached, sum(planned.values()), never))
     out = {'kill_points_fired_per_step': fired, 'kill_points_fired': sum(fired.values()),
            'kill_planned_but_not_reached': lab.get('kill:not_reached', 0),
            'scenarios_without_kill_raising_only': lab.get('kill:none', 0),
@@ -512,7 +551,7 @@ def _check_results(c, run_name, results, arrays, ref_by_case, detail_ctx):
     n_pts = int(np.prod(shape))
     by_case = {}
     for el in results:
-        if el.get('error') or el.get('len') != 3 or not isinstance(el.get('case_number'), int):
+        if el.get('error') or (el.get('len') or 0) < 3 or not isinstance(el.get('case_number'), int):
             c.fail({'clause': 'labels', 'run': run_name, 'what': 'malformed_element'}, '%r %s' % (el, detail_ctx))
             continue
         by_case.setdefault(el['case_number'], []).append(el)
@@ -555,11 +594,9 @@ def evaluate(case):
     arrays = model_arrays(axes)
     shape = _shape(arrays)
     n_pts = int(np.prod(shape))
-    try:
-        import psutil
-        pool = max(4, min(int(case['pool']), psutil.cpu_count() or 4))
-    except ImportError:
-        pool = int(case['pool'])
+    if _cpus() < 4:
+        return discard('host has fewer than 4 CPUs: multiprocessing_run refuses to start')
+    pool = min(int(case['pool']), _cpus())      # max_procs above the CPU count is rejected by the module
     kill = case['kill']
     raise_set = set(case['raise'])
     if kill is not None and kill['step'] in CASE_STEPS and kill['step'] not in ('pre_log', 'post_log', 'post_mkdir'):
@@ -567,6 +604,8 @@ def evaluate(case):
     c = Collector(nontrivial=False)
     c.label('dims:%d' % len(axes), 'pool:4-7' if pool < 8 else 'pool:8-11' if pool < 12 else 'pool:12-16',
             'raise:some' if raise_set else 'raise:none', 'kill:none' if kill is None else 'step:' + kill['step'])
+    if pool != int(case['pool']):
+        c.label('pool:capped_by_cpu_count')
     for ax in axes:
         c.label('scale:' + ax['scale'], 'mi:' + ax['mi_as'] + ('' if ax['mi'] or ax['mi_as'] == 'none' else '_empty'))
         if ax['mi_as'] != 'none' and ax['mi']:
@@ -596,6 +635,10 @@ def evaluate(case):
             if run1.rc != -signal.SIGKILL:
                 raise HarnessError('kill point reached but run 1 ended with rc=%r\n%s' % (run1.rc, run1.log_tail()))
             c.label('killed:' + kill['step'])
+            with open(run1.spec['kill_marker']) as fh:
+                note = fh.read()
+            if 'MISMATCH' in note:
+                raise HarnessError('header layout differs from the model of the header cut: %s' % note)
         else:
             if run1.rc != 0 or run1.payload is None:
                 raise HarnessError('run 1 died without injected kill: rc=%r\n%s' % (run1.rc, run1.log_tail()))
